@@ -929,3 +929,7 @@ fn range(cnt: u16) -> (usize, usize) {
 fn index(cnt: u16) -> usize {
     cnt as usize % MAX_ATOMIC_HISTORY
 }
+
+#[cfg(loom_verif)]
+#[path = "/verif/hooks/atomic_verif.rs"]
+pub(crate) mod verif;
